@@ -153,13 +153,22 @@ func c22Exec(ops []string) []string {
 					os.Remove(x.path)
 				}
 			}
-			n, err := newTestNode(func(c *serf.Config) {
-				c.MemberlistConfig.Keyring = x.kr
-				if hasFile {
-					c.KeyringFile = x.path
+			var n *testNode
+			var err error
+			// other harnesses run in parallel on the same loopback range: an address may be taken
+			for try := 0; try < 20; try++ {
+				n, err = newTestNode(func(c *serf.Config) {
+					c.MemberlistConfig.Keyring = x.kr
+					if hasFile {
+						c.KeyringFile = x.path
+					}
+					c.QueryTimeoutMult = 4000 // 20 s; KeyManager returns as soon as the node has answered
+				})
+				if err == nil {
+					break
 				}
-				c.QueryTimeoutMult = 4000 // 20 s; KeyManager returns as soon as the node has answered
-			})
+				time.Sleep(50 * time.Millisecond)
+			}
 			if err != nil {
 				outs = append(outs, "init-failed:"+hexs(err.Error()))
 				continue
